@@ -93,6 +93,10 @@ def child_main(path):
             json.dump({'forked': allrec}, f)
         return
     rec = []
+    if job.get('seed_rng') is not None:
+        # every worker seeds the global random generator with the same value "for reproducibility"
+        import random as _random
+        _random.seed(job['seed_rng'])
     if job.get('gated'):
         arm('gate/on')
         try:
@@ -520,6 +524,9 @@ def gen_case(rng, prop='C14', free=False):
         history = 2
         jobs = [{'ops': [['idle', 400], ['set', 'other', val('o')], ['set', 'other2', val('o')]]},
                 {'ops': [['in', 'k'], ['idle', 6500]]}]
+    if wl == 'writer-writer' and rng.random() < 0.5:
+        for j in jobs:
+            j['seed_rng'] = 12345
     return {'backend': b, 'workload': wl, 's0': s0, 'jobs': jobs, 'policy': policy, 'free': free,
             'history': history, 'seed': rng.randrange(1 << 30), 'cleared': bool(locals().get('cleared'))}
 
@@ -745,6 +752,8 @@ def run_case(case, prop='C14'):
         nops = sum(len(o or []) for o in outs)
         cnt['c14_client_ops'] = nops
         cnt['c14_schedules_free' if case.get('free') else 'c14_schedules_gated'] = 1
+        if any(j.get('seed_rng') is not None for j in case['jobs']):
+            cnt['c14_runs_with_identically_seeded_writers'] = 1
         cnt['c14_gate_grants'] = len(trace)
         # real overlap: operations of different processes whose [call, ret] intervals intersect
         iv = [(r['call'], r['ret'], pi) for pi, o in enumerate(outs) for r in (o or [])]
